@@ -139,9 +139,9 @@ const TYPE_NAMES: &[&str] = &[
 ];
 const PARTY_NAMES: &[&str] = &["third-party", "3p", "first-party", "1p"];
 const FLAG_NAMES: &[&str] = &["important", "badfilter", "match-case", "generichide", "ghide"];
-const DOMS: &[&str] = &["a.com", "b.com", "sub.a.com", "example.com", "foo.com", "x.net", "com", "co.uk", "a.co.uk"];
+const DOMS: &[&str] = &["a.com", "b.com", "sub.a.com", "example.com", "foo.com", "x.net", "com", "co.uk", "a.co.uk", "www.example.com", "www.a.com", "www.www.foo.com"];
 const SRC_HOSTS: &[&str] = &[
-    "a.com", "sub.a.com", "x.sub.a.com", "b.com", "xa.com", "a.com.evil.org", "com", "a.com.", ".a.com", "www.example.com",
+    "a.com", "sub.a.com", "x.sub.a.com", "b.com", "xa.com", "a.com.evil.org", "com", "a.com.", ".a.com", "www.example.com", "www.a.com", "cdn.a.com", "shop.www.a.com", "www.foo.com",
     "example.com", "foo.com", "x.net", "y.x.net", "a.co.uk", "b.a.co.uk", "localhost", "",
     // deep initiators: a listed domain covers every depth of subdomain
     "p.q.r.s.t.a.com", "k.l.m.n.sub.a.com", "v.w.x.y.z.x.net", "a1.b2.c3.d4.e5.f6.g7.example.com", "n1.n2.n3.n4.n5.a.co.uk", "a.b.c.d.foo.com",
